@@ -59,6 +59,10 @@ def billing_cases(draw):
         rest = [L - 1] * (long_ - L)
         k = draw(st.integers(0, len(rest)))
         lengths = [L] + rest[:k] + [long_] + rest[k:]
+        if draw(st.booleans()):
+            lengths = lengths + [L - 1]  # the coincidence holds for the reads that carry a bill (all but the closing one)
+        if draw(st.booleans()):
+            tz = draw(st.sampled_from(["UTC", "Asia/Tokyo"]))  # no clock change between the first and the last read
     c = {"kind": "billing", "tz": tz, "cycle": cyc, "lengths": lengths, "start_day": draw(st.integers(0, 600)),
          "entry": draw(st.sampled_from(["frame", "from_series", "from_series_hourly_T"])), "T_utc": draw(st.booleans()),
          "useed": draw(st.integers(0, 2 ** 20)), "baseline": draw(st.booleans()),
